@@ -60,6 +60,30 @@ func Expand(v string) string {
 	return v + "=" + string(b)
 }
 
+// Normalize makes every session start explicit: an "open" step is inserted
+// before a write / sync / compact step that would otherwise open the swamp
+// implicitly (the load, and a possible self-heal compaction, then has its own
+// step markers in the trace). It is idempotent.
+func (h *History) Normalize() {
+	var out []Step
+	open := false
+	for _, s := range h.Steps {
+		switch s.Op {
+		case "open":
+			open = true
+		case "close", "cli":
+			open = false
+		case "write", "compact":
+			if !open {
+				out = append(out, Step{Op: "open"})
+				open = true
+			}
+		}
+		out = append(out, s)
+	}
+	h.Steps = out
+}
+
 // Entries returns the flat sequence of entries a history issues, in order.
 func (h *History) Entries() []Ent {
 	var out []Ent
